@@ -118,7 +118,7 @@ fn main() {
     let mut cx = Ctx::from_args("C15", Level::ModelChecking);
     cx.worker_rayon_threads = Some(1);
     cx.set_rule(
-        "(A) all sequences with repetition of length 0..3 (quick) / 0..4 (thorough) over 9 batch members (3 valid proofs \
+        "(A) all sequences with repetition of length 0..3 (quick) / 0..4 (thorough) over 12 batch members (3 valid proofs \
          of 2 relations of different size; invalid twins by corrupted opening proof, corrupted scalar, wrong public \
          input, wrong verifying key) through batch_verify and Guard::batch_verify, plus all length-mismatched \
          argument triples for n<=2; (B) accumulator states: 8 atoms (2 valid + 1 invalid synthetic pairs, a Δ-pair \
@@ -181,6 +181,8 @@ fn main() {
         Member { name: "B-badscalar", vk: vk_b.clone(), pi: vec![xb], proof: corrupt_scalar(&proof_b), valid: false },
         Member { name: "B-wrong-input", vk: vk_b.clone(), pi: vec![x2], proof: proof_b.clone(), valid: false },
         Member { name: "B-under-vkA", vk: vk_a.clone(), pi: vec![xb], proof: proof_b.clone(), valid: false },
+        // a valid proof followed by one extra byte (must be rejected: trailing bytes)
+        Member { name: "A1-trailing-byte", vk: vk_a.clone(), pi: vec![x1], proof: [proof_a1.clone(), vec![0u8]].concat(), valid: false },
     ];
     // A Δ-pair of PROOFS: the opening element π is read after the last challenge was squeezed, so
     // replacing π by π + D leaves every challenge unchanged. With the SRS secret τ and the
@@ -212,8 +214,9 @@ fn main() {
         pool.push(Member { name: "A1+D", vk: vk_a.clone(), pi: vec![x1], proof: shift_pi(&proof_a1, d1), valid: false });
         pool.push(Member { name: "A2+cD", vk: vk_a.clone(), pi: vec![x2], proof: shift_pi(&proof_a2, d1 * c), valid: false });
         // self-check: the unscaled sum of the two guards is a valid guard
-        let mut g = guard_of(&pool[9]).expect("guard");
-        g.add_msm(guard_of(&pool[10]).expect("guard"));
+        let n = pool.len();
+        let mut g = guard_of(&pool[n - 2]).expect("guard");
+        g.add_msm(guard_of(&pool[n - 1]).expect("guard"));
         let cancels = g.check(&vparams);
         cx.require(cancels, "the Δ-pair of proofs does not cancel when the guards are summed unscaled");
     }
